@@ -77,7 +77,7 @@ func unitRemuxerH265(forma format.Format, payload unit.Payload) unit.Payload {
 				isKeyFrame = true
 
 				// prepend parameters
-				if formatH265.VPS != nil && formatH265.SPS != nil && formatH265.PPS != nil {
+				if len(formatH265.VPS) != 0 && len(formatH265.SPS) != 0 && len(formatH265.PPS) != 0 {
 					n += 3
 				}
 			}
@@ -92,7 +92,7 @@ func unitRemuxerH265(forma format.Format, payload unit.Payload) unit.Payload {
 	filteredAU := make([][]byte, n)
 	i := 0
 
-	if isKeyFrame && formatH265.VPS != nil && formatH265.SPS != nil && formatH265.PPS != nil {
+	if isKeyFrame && len(formatH265.VPS) != 0 && len(formatH265.SPS) != 0 && len(formatH265.PPS) != 0 {
 		filteredAU[0] = formatH265.VPS
 		filteredAU[1] = formatH265.SPS
 		filteredAU[2] = formatH265.PPS
@@ -147,7 +147,7 @@ func unitRemuxerH264(forma format.Format, payload unit.Payload) unit.Payload {
 				isKeyFrame = true
 
 				// prepend parameters
-				if formatH264.SPS != nil && formatH264.PPS != nil {
+				if len(formatH264.SPS) != 0 && len(formatH264.PPS) != 0 {
 					n += 2
 				}
 			}
@@ -162,7 +162,7 @@ func unitRemuxerH264(forma format.Format, payload unit.Payload) unit.Payload {
 	filteredAU := make([][]byte, n)
 	i := 0
 
-	if isKeyFrame && formatH264.SPS != nil && formatH264.PPS != nil {
+	if isKeyFrame && len(formatH264.SPS) != 0 && len(formatH264.PPS) != 0 {
 		filteredAU[0] = formatH264.SPS
 		filteredAU[1] = formatH264.PPS
 		i = 2
